@@ -3619,6 +3619,17 @@ class Assemble(Array):
     def _compile_expression(self, func, *args):
         return _pyast.Variable('evaluable').get_attr('Assemble').get_attr('evalf').call(func, *args)
 
+    def _intbounds_impl(self):
+        lower, upper = self.func._intbounds
+        if not all(_isunique(index) for index in self.indices):
+            # Entries of `func` that end up in the same position are summed.
+            n = util.product((length._intbounds[1] for length in self.func.shape), 1)
+            if n == 0:
+                return 0, 0
+            # NOTE: `b and b * n` prevents nans from multiplying zero with inf.
+            lower, upper = lower and lower * n, upper and upper * n
+        return min(lower, 0), max(upper, 0)
+
     def _compile_with_out(self, builder, out, out_block_id, mode):
         # Compiles to an assignment (or in place addition) of the form:
         #
